@@ -44,6 +44,9 @@ def mutex_spec(kind: str, n: int = 2) -> dict:
             t = [{"kind": "poll", "n": 2, "out": [m + "_o"]}]
         if kind == "two_tasks":
             t = [dict(specs.OK), dict(specs.OK)]
+        if kind == "suspend" and i == 0:
+            # the holder parks inside its critical section until a signal arrives
+            t = [{"kind": "suspend", "out": [m + "_o"]}]
         s = specs.st(m, ["r"], t, mutex="M")
         if kind == "fail" and i == 0:
             s["ctx"] = {"continuePipelineOnFailure": True}
@@ -81,6 +84,7 @@ SPECS = [
     lambda: choice_spec(2),
     lambda: choice_spec(3),
     mutex_jump_spec,
+    lambda: mutex_spec("suspend", 2),
 ]
 
 
@@ -147,7 +151,7 @@ def group_oracle(spec: dict, run, prop: str = "C11") -> tuple[list[dict], Counte
     if run.quiescent:
         for k, sibs in (spec.get("mutex") or {}).items():
             for s in sibs:
-                if final[s]["status"] not in oracles.COMPLETE:
+                if final[s]["status"] not in oracles.COMPLETE and final[s]["status"] != "SUSPENDED":
                     out.append(viol(f"{prop}/mutex-stage-never-ran", f"{s} is {final[s]['status']} at quiescence (workflow {run.state['wf']}); siblings { {x: final[x]['status'] for x in sibs} }"))
         starts = oracles.starts_per_iteration(run.audit)
         for gname, sibs in (spec.get("choice") or {}).items():
@@ -250,7 +254,7 @@ def _whole(case: dict) -> dict:
     keys: set = set()
     violations = []
     for j in range(case["runs"]):
-        spec = rng.choice(SPECS)()
+        spec = rng.choice(SPECS[:8])()
         s = rng.randrange(1 << 30)
         pol = il.RandomPolicy(s, rng.choice([0.2, 0.4])) if j % 2 else il.PCT(s, rng.randint(2, 5), 500)
         extra = {"S": _sweeper} if rng.random() < 0.6 else None
@@ -279,9 +283,13 @@ def _delivery(case: dict) -> dict:
     obs: Counter = Counter()
     keys: set = set()
     violations = []
-    ref = delivery_run(spec, max_steps=1500)
+    parked = "suspend" in spec["name"]
+    ref = delivery_run(spec, max_steps=60 if parked else 1500)  # a parked holder keeps its waiter polling: no quiescence without the signal
     for j in range(case["nsched"]):
-        inj = [{"at": rng.randrange(1, max(2, ref.steps)), "do": "retention"}] if j % 3 == 0 else None
+        inj = [{"at": rng.randrange(1, max(2, ref.steps)), "do": "retention"}] if j % 3 == 0 else []
+        if "suspend" in spec["name"]:
+            # the signal that resumes the parked holder arrives at some later moment
+            inj = list(inj) + [{"at": rng.randrange(8, 70), "do": "signal", "ref": "m1", "persistent": True, "id": "s"}]
         run = delivery_run(spec, seed=rng.randrange(1 << 30), order=rng.choice(["random", "lifo"]), noack_p=rng.choice([0.0, 0.25]), injections=inj, max_steps=ref.steps * 6 + 300)
         obs["evaluations"] += 1
         if run.budget_exhausted:
